@@ -1496,7 +1496,7 @@ def fam_t2(rnd, ctx):
     comps = rnd.random() < 0.25
     mode = rnd.choice(["grid", "int", "int", "half", "dyadic", "dec", "float"])
     tkind = rnd.choice(["int", "dyadic", "offset", "float"]) if comps else None
-    rec, mode, gs_raw = _gen(rnd, comps=comps, mode=mode, gs_mode=mode, tkind=tkind)
+    rec, mode, gs_raw = _gen(rnd, comps=comps, mode=mode, gs_mode=mode, tkind=tkind, touch=0.5)
     rtol = rnd.choice([0.5, 0.5, 0.5, 0, 0.25, 0.1])
     cff2 = rnd.random() < 0.3
     optimize = rnd.random() < 0.7
@@ -1518,7 +1518,8 @@ def fam_t2(rnd, ctx):
     lib_call(ctx, "T2CharString.draw", cfg, lambda: cs.draw(r), w)
     in_rec = O.norm_rec(rec)
     flat = tau_decompose(in_rec, gs)
-    cs0 = [O.elevate_contour(c) for c in O.canon(flat)]
+    cq = O.canon(flat)
+    cs0 = [O.elevate_contour(c) for c in cq]
     allnums = [v for p in O.all_points(cs0) for v in p]
     tolF = F(rtol)
     inexact = comps or any(frac_bits(v) is None or frac_bits(v) > 20 for v in rec_numbers(rec) + gs_numbers(gs_raw))
@@ -1538,11 +1539,20 @@ def fam_t2(rnd, ctx):
         # Points the pen computes with 1/3 or 2/3 factors (quadratic elevation, super-Bezier split) - or from
         # inexact operands - may sit a hair off a tie in floating point; raw points and midpoints of dyadic
         # operands are exact in binary64 and are judged also on ties.
-        for c in cs0:
-            for s_ in c["segs"]:
-                for k, p in enumerate(s_[1:]):
-                    onc = k == 0 or k == len(s_) - 2
-                    float_exact = (not inexact) and (p in raw_pts or (onc and all(frac_bits(v) is not None and frac_bits(v) <= 12 for v in p)))
+        def dyadic(p):
+            return all(frac_bits(v) is not None and frac_bits(v) <= 12 for v in p)
+
+        for c, ce in zip(cq, cs0):
+            for s_, se in zip(c["segs"], ce["segs"]):
+                if s_[0] == "l":
+                    pts = [(p, not inexact) for p in s_[1:]]
+                elif s_[0] == "q":
+                    # end points: raw or midpoints of the spline (exact for dyadic operands); the elevated handles use 2/3
+                    pts = [(s_[1], not inexact and dyadic(s_[1])), (s_[3], not inexact and dyadic(s_[3])), (se[2], False), (se[3], False)]
+                else:
+                    # plain cubic: raw points; pieces of a super-Bezier (1/3 factors, also at the joins): computed
+                    pts = [(p, not inexact and p in raw_pts) for p in s_[1:]]
+                for p, float_exact in pts:
                     for v in p:
                         if band(v):
                             ctx.skip("rounding-tolerance-boundary")
